@@ -51,6 +51,8 @@ def assert_expand(ctx):
     core.observe("specifications")
     if n_ver:
         core.observe("specifications with a verified class offering a pack")
+        if any(isinstance(r, EquivalencePathRule) for r in spec.rules_dict.values()):
+            core.observe("specifications with a verified class offering a pack and an equivalence path")
     if new.root != ctx.start:
         raise Bad("the expanded specification is for %r" % (new.root,))
     c01.assert_counts(ctx, new, n_max=6)
@@ -144,6 +146,13 @@ def groups(tier):
                     continue
                 gs.append({"name": "F5-%s-%s-t%d" % (db, opt, lo), "fn": "check_opt", "shape": {"db": db, "opt": opt, "S": "F5", "trange": [lo, lo + 48]},
                            "cond_timeout": 2400.0, "path_timeout": 120.0, "expect_space": 48, "weight": 48 * (20 if lo >= 576 else 5)})
+    # "F5e": state 4 is a copy of the start state (merged by the inferral strategy), so the specification contains an equivalence
+    # path next to pack-offering verified classes: expand_comb_class has to copy the rules *inside* the path as well
+    ne = len(e2e.tables("F5e"))
+    for db in dbsf:
+        for opt in (("inferral-finite",) if tier == "quick" else ("inferral-finite", "inferral-two-finite")):
+            gs.append({"name": "F5e-%s-%s" % (db, opt), "fn": "check_opt", "shape": {"db": db, "opt": opt, "S": "F5e"},
+                       "cond_timeout": 2400.0, "path_timeout": 120.0, "expect_space": ne, "weight": ne * 3})
     if tier == "thorough":
         n3 = len(e2e.tables(3))
         for db in dbsf:
@@ -166,7 +175,8 @@ def meta(tier):
         "functions": [Spec.expand_verified, Spec.unexpanded_verified_classes, Spec.expand_comb_class, ForestRuleExtractor.rules,
                       ForestRuleExtractor._find_rule],
         "bounds": {"quick": "64 two-state tables x 3 databases x 3 packs with the pack-offering FiniteLang verification; 512 four-state tables whose "
-                            "states 1,2 accept finite languages x 3 databases",
+                            "states 1,2 accept finite languages x 3 databases; 128 five-state tables with a copy of the start state (equivalence path next to "
+                            "the pack-offering verified classes) x 3 databases with the inferral strategy",
                    "thorough": "6 packs on the two-state tables, 4 packs on the four-state tables, all 2934 three-state tables x 3 databases"}[tier],
     })
     m["bounds"] = str(m.get("bounds", "")) + " || end-to-end groups of this run: " + e2e.describe_groups(groups(tier))
